@@ -217,12 +217,8 @@ func runC19(c *engine.Ctx) {
 						return "monitor-stop"
 					}
 				}
-				if st, ok := in.(*ssa.Store); ok {
-					if lf, _ := engine.LoadedField(st.Addr); lf == phaseF {
-						if s, ok := engine.ConstString(st.Val); ok && s == "closed" {
-							return "phase-closed"
-						}
-					}
+				if s, ok := phaseStoreOf(in, phaseF, phaseSetters(p, phaseF)); ok && s == "closed" {
+					return "phase-closed"
 				}
 				return ""
 			},
@@ -315,6 +311,8 @@ func runC19(c *engine.Ctx) {
 	checkConfigReadPerAttempt(c, "R7")
 	// ---- R9 ----
 	checkLocalStartFailure(c, "R9")
+	checkConfigNotWritten(c, "R10")
+	checkWorkerEndsOnOwnCtx(c, "R11")
 
 	// ---- R8 ----
 	c.Rule("R8", "every event the proxy wrapper sends to the control (start-proxy, close-proxy) is sent while Wrapper.mu is held: the phase decision and the message it causes cannot be separated by a concurrent Stop, so a stopped proxy sends no further registration")
@@ -469,23 +467,17 @@ func checkPhaseStores(c *engine.Ctx) {
 		})
 	}
 	n := 0
+	setters := phaseSetters(p, phaseF)
 	for _, f := range p.RepoFuncs() {
 		engine.ForEachInstr(f, func(in ssa.Instruction) {
-			st, ok := in.(*ssa.Store)
-			if !ok {
-				return
+			if st, ok := in.(*ssa.Store); ok {
+				if lf, b := engine.LoadedField(st.Addr); lf == phaseF {
+					if _, isAl := b.(*ssa.Alloc); isAl {
+						return // constructor / status snapshot
+					}
+				}
 			}
-			if lf, _ := engine.LoadedField(st.Addr); lf != phaseF {
-				return
-			}
-			if _, local := func() (ssa.Value, bool) {
-				_, b := engine.LoadedField(st.Addr)
-				_, isAl := b.(*ssa.Alloc)
-				return nil, isAl
-			}(); local {
-				return // constructor / status snapshot
-			}
-			target, isC := engine.ConstString(st.Val)
+			target, isC := phaseStoreOf(in, phaseF, setters)
 			if !isC {
 				return
 			}
@@ -716,6 +708,18 @@ func checkHealthMonitor(c *engine.Ctx) {
 						return "monitor"
 					}
 				}
+				// the flag kept in a typed atomic: pw.health.Store(1) / atomic.StoreUint32(&pw.health, 1)
+				if call, ok := in.(*ssa.Call); ok {
+					if o := engine.CalleeObj(call); o != nil && o.Pkg() != nil && o.Pkg().Path() == "sync/atomic" && strings.HasPrefix(o.Name(), "Store") {
+						if a := engine.CallArgs(call); len(a) == 2 {
+							if lf, _ := engine.LoadedField(a[0]); lf == healthF {
+								if z, ok := engine.ConstInt(a[1]); ok && z != 0 {
+									return "unhealthy"
+								}
+							}
+						}
+					}
+				}
 				return ""
 			},
 			Pred: func(st *engine.PathState) string {
@@ -730,4 +734,160 @@ func checkHealthMonitor(c *engine.Ctx) {
 	_ = names
 	_ = p
 	c.Floor(n, 4)
+}
+
+// checkConfigNotWritten (R10): the reload diff compares the configuration a running proxy / visitor was started from
+// (Wrapper.Cfg, Manager.cfgs) with the freshly loaded one by reflect.DeepEqual. That comparison means "the file did
+// not change" only while nobody writes into the stored configuration. The run-time packages of the client receive it
+// by pointer (GetBaseConfig returns a pointer into it): they may fill defaults into private copies only.
+func checkConfigNotWritten(c *engine.Ctx, rule string) {
+	c.Rule(rule, "client/proxy, client/health and client/visitor never store into a field of a pkg/config/v1 structure reached through a pointer they were given (a parameter, a field, a call result): defaults are filled into by-value copies only, so the stored configuration stays DeepEqual to an unchanged file")
+	p := c.P
+	n, seen := 0, 0
+	inV1 := func(t types.Type) bool {
+		nn := engine.NamedOf(t)
+		return nn != nil && nn.Obj().Pkg() != nil && nn.Obj().Pkg().Path() == engine.ModPath+"/pkg/config/v1"
+	}
+	for _, f := range p.RepoFuncs() {
+		if f.Pkg == nil {
+			continue
+		}
+		pp := f.Pkg.Pkg.Path()
+		if pp != engine.ModPath+"/client/proxy" && pp != engine.ModPath+"/client/health" && pp != engine.ModPath+"/client/visitor" {
+			continue
+		}
+		f := f
+		engine.ForEachInstr(f, func(in ssa.Instruction) {
+			st, ok := in.(*ssa.Store)
+			if !ok {
+				return
+			}
+			fa, ok := st.Addr.(*ssa.FieldAddr)
+			if !ok || !inV1(fa.X.Type()) {
+				return
+			}
+			seen++
+			// walk to the base of the selector chain
+			base := fa.X
+			for {
+				if inner, ok := base.(*ssa.FieldAddr); ok {
+					base = inner.X
+					continue
+				}
+				break
+			}
+			if _, local := base.(*ssa.Alloc); local {
+				n++
+				c.Hold(fmt.Sprintf("%s>config-write#%d", p.FuncName(f), seen), in.Pos(), 1, nil, "default filled into a private copy")
+				return
+			}
+			n++
+			c.Violate(fmt.Sprintf("%s>config-write#%d", p.FuncName(f), seen), in.Pos(), []string{"written through: " + engine.Describe(base)},
+				"field %s of the shared configuration is overwritten at run time: the stored configuration no longer equals the file it was loaded from, so the next reload of the unchanged file restarts this entry", engine.Deref(fa.X.Type()).Underlying().(*types.Struct).Field(fa.Field).Name())
+		})
+	}
+	c.Floor(n, 2)
+}
+
+// checkWorkerEndsOnOwnCtx (R11): the probe loop ends only when the monitor itself was stopped. Every probe runs under a
+// context derived from the monitor's with the probe's deadline: that derived context is also done when the probe merely
+// exceeded its timeout — which must count as a failed probe, not end health checking for good.
+func checkWorkerEndsOnOwnCtx(c *engine.Ctx, rule string) {
+	c.Rule(rule, "Monitor.checkWorker returns only on paths that found the monitor's own context (field ctx) done — a receive from ctx.Done() or ctx.Err() != nil on that very field, not on the per-probe context derived from it")
+	f := fn(c, "client/health.Monitor.checkWorker")
+	ctxF := field(c, "client/health", "Monitor", "ctx")
+	if f == nil || ctxF == nil {
+		return
+	}
+	onOwnCtx := func(recv ssa.Value) bool {
+		lf, _ := engine.LoadedField(engine.Unwrap(recv))
+		return lf == ctxF
+	}
+	var ownTest func(v ssa.Value, d int) bool
+	ownTest = func(v ssa.Value, d int) bool {
+		if v == nil || d > 4 {
+			return false
+		}
+		switch x := v.(type) {
+		case *ssa.Extract:
+			if sel, ok := x.Tuple.(*ssa.Select); ok {
+				for _, s := range sel.States {
+					if ownTest(s.Chan, d+1) {
+						return true
+					}
+				}
+			}
+			return ownTest(x.Tuple, d+1)
+		case *ssa.UnOp:
+			if x.Op == token.ARROW {
+				return ownTest(x.X, d+1)
+			}
+		case *ssa.Call:
+			if x.Call.IsInvoke() && (x.Call.Method.Name() == "Done" || x.Call.Method.Name() == "Err") {
+				return onOwnCtx(x.Call.Value)
+			}
+		case *ssa.ChangeType:
+			return ownTest(x.X, d+1)
+		}
+		return false
+	}
+	n := 0
+	engine.ForEachInstr(f, func(in ssa.Instruction) {
+		if _, ok := in.(*ssa.Return); ok {
+			n++
+		}
+	})
+	c.AllPaths("client/health.Monitor.checkWorker>ends-when-stopped", engine.PathCheck{Fn: f, Sink: engine.IsReturn, KeepLoopFacts: true, Pred: func(st *engine.PathState) string {
+		for _, l := range st.Lits {
+			if ownTest(l.X, 0) || ownTest(l.Y, 0) {
+				return ""
+			}
+		}
+		return "the probe loop ends on a path that did not test the monitor's own context: a probe that merely ran into its deadline ends health checking for this proxy"
+	}}, "worker ends ⇒ monitor stopped")
+	c.Floor(n, 1)
+}
+
+// phaseSetters: the functions that store one of their parameters into Wrapper.Phase (a `setPhase(next)` helper): a call
+// to one of them with a constant argument is a store of that phase constant at the call site.
+func phaseSetters(p *engine.Prog, phaseF *types.Var) map[*ssa.Function]int {
+	out := map[*ssa.Function]int{}
+	for _, f := range p.RepoFuncs() {
+		f := f
+		engine.ForEachInstr(f, func(in ssa.Instruction) {
+			st, ok := in.(*ssa.Store)
+			if !ok {
+				return
+			}
+			if lf, _ := engine.LoadedField(st.Addr); lf != phaseF {
+				return
+			}
+			if pr, ok := engine.Unwrap(st.Val).(*ssa.Parameter); ok {
+				for i, q := range f.Params {
+					if q == pr {
+						out[f] = i
+					}
+				}
+			}
+		})
+	}
+	return out
+}
+
+// phaseStoreOf: the phase constant this instruction writes into Wrapper.Phase — directly or through a setter.
+func phaseStoreOf(in ssa.Instruction, phaseF *types.Var, setters map[*ssa.Function]int) (string, bool) {
+	if st, ok := in.(*ssa.Store); ok {
+		if lf, _ := engine.LoadedField(st.Addr); lf == phaseF {
+			return engine.ConstString(st.Val)
+		}
+		return "", false
+	}
+	if call, ok := in.(*ssa.Call); ok {
+		if cf := engine.CalleeFn(call); cf != nil {
+			if i, ok := setters[cf]; ok && i < len(call.Call.Args) {
+				return engine.ConstString(call.Call.Args[i])
+			}
+		}
+	}
+	return "", false
 }
